@@ -677,12 +677,15 @@ func c12PlaceCase(run *evid.Run, i int, j *Journal) {
 		return
 	}
 	c12Pool := cborItems
-	h := hx.Gen(run.Seed, i, hx.GenOpts{MaxSteps: 30, Orders: []string{"hash"}, MaxReplicas: 4})
+	// (a third of the stored histories are written with a link key: their blocks are decoded - several at a time, by
+	// the fetcher's workers - through the sealed-link path)
+	h := hx.Gen(run.Seed, i, hx.GenOpts{MaxSteps: 30, Orders: []string{"hash"}, MaxReplicas: 4, Codecs: []string{"cbor", "cbor", "link"}})
 	for k := range h.Steps {
-		if h.Steps[k].Op == "append" && rng.Intn(2) == 0 {
+		if h.Steps[k].Op == "append" && (rng.Intn(2) == 0 || h.Codec == "link") {
 			h.Steps[k].PC = 16
 		}
 	}
+	run.Count("placement_histories_codec_"+h.Codec, 1)
 	x := hx.NewExec(h)
 	for k := range h.Steps {
 		x.Do(k)
